@@ -60,6 +60,16 @@ theorem convert_failed_unchanged_fault (env : Env) (O : Oracle σ) (n : Nat) (w 
     (h : step env (failAt n O) w op = .error e) : exec env (failAt n O) w op = w :=
   convert_failed_unchanged env (failAt n O) w op e h
 
+/-- the executable monitor `rejected_unchanged` (whole bank ledger, registry, switches, token ledger)
+holds on every rejected transition of the model -/
+theorem rejected_unchanged_monitor (env : Env) (cfg : Cfg) (O : Oracle TState) (w : World TState) (op : Op) (e : Rej)
+    (h : step env O w op = .error e) (r : Resp) (ans : List Ans) (hon cl : Bool)
+    (lk : List (Addr × Denom × String × String)) (prev : Option (DOp × Bool × Resp × World TState × Bool)) :
+    rejectedUnchanged { env := env, cfg := cfg, pre := w, op := .k op, ok := false, resp := r, post := exec env O w op,
+                        answers := ans, honest := hon, lookups := lk, clean := cl, prev := prev } = true := by
+  rw [convert_failed_unchanged env O w op e h]
+  simp [rejectedUnchanged, sameState, sameBank, sameReg, sameMap, sameTok, AMap.eqv]
+
 /-! ## success: which path ran -/
 
 /-- a successful `ConvertCoin` passed the gate, found code at the contract and ran the path of the
